@@ -266,7 +266,8 @@ theorem iterGo_sorted (find : Nat → Option Span) (len re : Nat) (atEnd : Bool)
         simp only
         have hge := hs.ge le m hf
         have hme := hs.le le m hf
-        have hnew : Sorted (acc ++ [m]) := by
+        have hnew : (m.s < re ∨ (atEnd = true ∧ m.s = re)) → Sorted (acc ++ [⟨m.s, min m.e re⟩]) := by
+          intro hc
           refine ⟨?_, ?_⟩
           · rw [List.pairwise_append]
             refine ⟨hsorted.1, by simp, ?_⟩
@@ -274,17 +275,19 @@ theorem iterGo_sorted (find : Nat → Option Span) (len re : Nat) (atEnd : Bool)
             simp only [List.mem_singleton] at hb
             subst hb
             have := hacc a ha
+            simp only
             omega
           · intro x hx
             rcases List.mem_append.mp hx with hx | hx
             · exact hsorted.2 x hx
-            · simp only [List.mem_singleton] at hx; subst hx; exact hme
-        have hbound : ∀ k, m.e ≤ k → ∀ x ∈ acc ++ [m], x.e ≤ k := by
+            · simp only [List.mem_singleton] at hx; subst hx
+              simp only; omega
+        have hbound : ∀ k, m.e ≤ k → ∀ x ∈ acc ++ [⟨m.s, min m.e re⟩], x.e ≤ k := by
           intro k hk x hx
           rcases List.mem_append.mp hx with hx | hx
           · have := hacc x hx; omega
-          · simp only [List.mem_singleton] at hx; subst hx; exact hk
-        rcases step_cases re atEnd acc m with hst | ⟨hst, _⟩
+          · simp only [List.mem_singleton] at hx; subst hx; simp only; omega
+        rcases step_cases re atEnd acc m with hst | ⟨hst, hcond⟩
         · by_cases h1 : (m.s == m.e) = true
           · simp only [h1, ↓reduceIte]
             by_cases h2 : (some m.e == lm) = true
@@ -300,9 +303,9 @@ theorem iterGo_sorted (find : Nat → Option Span) (len re : Nat) (atEnd : Bool)
             · simp only [h2, ↓reduceIte]
               exact ih _ _ _ (fun x hx => by have := hacc x hx; omega) hsorted
             · simp only [h2, Bool.false_eq_true, ↓reduceIte, hst]
-              exact ih _ _ _ (hbound (m.e + 1) (by omega)) hnew
+              exact ih _ _ _ (hbound (m.e + 1) (by omega)) (hnew hcond)
           · simp only [h1, Bool.false_eq_true, ↓reduceIte, hst]
-            exact ih _ _ _ (hbound m.e (Nat.le_refl _)) hnew
+            exact ih _ _ _ (hbound m.e (Nat.le_refl _)) (hnew hcond)
 
 open RgVerif.Lemmas.PrinterIter in
 /-- What every printer records for a range: sorted, disjoint, well-formed matches (sane matcher). -/
